@@ -127,6 +127,13 @@ public:
     auto deadline = Clock::now() + delay;
 
     std::lock_guard lock(_wheelMutex);
+    // Re-check under the lock: drain()/stop() clear _accepting before they
+    // collect the entries under this mutex, so a timer accepted here is either
+    // seen by them or refused — never left behind in a wheel that no longer ticks.
+    if (!_accepting.load(std::memory_order_acquire))
+    {
+      return InvalidTimerId;
+    }
     auto* entry = allocEntry(); // alloc under _wheelMutex to prevent ABBA with _poolMutex
     entry->id = id;
     entry->callback = std::move(callback);
